@@ -97,3 +97,48 @@ package avfs
 //@   mode bv
 //@   ensures[C17] r0 == (ftf.features&feature == feature)
 //@   modifies nothing
+
+// ---- vfs.go: generic helpers built on OpenFile/Mkdir (C01, C12, C14) -------------------------
+
+//@ func Create
+//@   event
+//@   requires vfs != nil
+//@   ensures[C01,C12] ncalls(vfs.OpenFile) == 1 && recv(vfs.OpenFile) == vfs && arg(vfs.OpenFile, 0) == name && arg(vfs.OpenFile, 1) == os.O_RDWR|os.O_CREATE|os.O_TRUNC
+//@   ensures[C01,C12] r0 == result(vfs.OpenFile, 0) && r1 == result(vfs.OpenFile, 1)
+
+//@ func WriteFile
+//@   event
+//@   requires vfs != nil
+//@   ensures[C01,C12] ncalls(vfs.OpenFile) == 1 && recv(vfs.OpenFile) == vfs && arg(vfs.OpenFile, 0) == name && arg(vfs.OpenFile, 1) == os.O_WRONLY|os.O_CREATE|os.O_TRUNC && arg(vfs.OpenFile, 2) == perm
+//@   ensures[C01,C12] failed(vfs.OpenFile) ==> r0 == result(vfs.OpenFile, 1) && !called(f.Write) && !called(f.Close)
+//@   ensures[C01,C12] !failed(vfs.OpenFile) ==> ncalls(f.Write) == 1 && recv(f.Write) == result(vfs.OpenFile, 0) && arg(f.Write, 0) == data && ncalls(f.Close) == 1 && recv(f.Close) == result(vfs.OpenFile, 0)
+//@   ensures[C01,C12] failed(f.Write) ==> r0 == result(f.Write, 1)
+//@   ensures[C01,C12] called(f.Close) && !failed(f.Write) ==> r0 == result(f.Close)
+
+//@ func ReadDir
+//@   event
+//@   requires vfs != nil
+//@   ensures[C14,C12] ncalls(vfs.OpenFile) == 1 && recv(vfs.OpenFile) == vfs && arg(vfs.OpenFile, 0) == name && arg(vfs.OpenFile, 1) == os.O_RDONLY
+//@   ensures[C14,C12] failed(vfs.OpenFile) ==> r0 == nil && r1 == result(vfs.OpenFile, 1) && !called(f.ReadDir)
+//@   ensures[C14,C12] !failed(vfs.OpenFile) ==> ncalls(f.ReadDir) == 1 && recv(f.ReadDir) == result(vfs.OpenFile, 0) && arg(f.ReadDir, 0) == -1 && r1 == result(f.ReadDir, 1) && ncalls(f.Close) == 1 && recv(f.Close) == result(vfs.OpenFile, 0)
+
+//@ func ReadFile
+//@   event
+//@   requires vfs != nil
+//@   ensures[C01,C12] called(vfs.OpenFile) && recv(vfs.OpenFile) == vfs && arg(vfs.OpenFile, 0) == name && arg(vfs.OpenFile, 1) == os.O_RDONLY
+//@   ensures[C01,C12] failed(vfs.OpenFile) ==> r0 == nil && r1 == result(vfs.OpenFile, 1) && !called(f.Read)
+//@   ensures[C01,C12] !failed(vfs.OpenFile) ==> called(f.Close)
+
+//@ func MkdirTemp
+//@   event
+//@   requires vfs != nil
+//@   ensures[C01,C12] r1 == nil ==> called(vfs.Mkdir) && !failed(vfs.Mkdir) && arg(vfs.Mkdir, 0) == r0 && recv(vfs.Mkdir) == vfs
+
+//@ func CreateTemp
+//@   event
+//@   requires vfs != nil
+//@   ensures[C01,C12] r1 == nil ==> called(vfs.OpenFile) && !failed(vfs.OpenFile) && r0 == result(vfs.OpenFile, 0) && recv(vfs.OpenFile) == vfs && arg(vfs.OpenFile, 1) == os.O_RDWR|os.O_CREATE|os.O_EXCL
+
+//@ func Glob
+//@   event
+//@   trusted
